@@ -186,6 +186,62 @@ def flatten(doc):
     return walk(doc)
 
 
+def admits_null_alt(s):
+    """an anyOf / oneOf (possibly nested) one of whose alternatives admits null"""
+    if not isinstance(s, dict):
+        return False
+    for key in ("anyOf", "oneOf"):
+        for a in s.get(key, []):
+            if isinstance(a, dict) and ((isinstance(a.get("type"), list) and "null" in a["type"]) or a.get("type") == "null"
+                                        or (None in a.get("enum", [])) or admits_null_alt(a)):
+                return True
+    return False
+
+
+def refers_to(s, name):
+    if isinstance(s, dict):
+        if s.get("$ref", "").endswith("/" + name):
+            return True
+        return any(refers_to(v, name) for k, v in s.items() if k != "properties")
+    if isinstance(s, list):
+        return any(refers_to(v, name) for v in s)
+    return False
+
+
+def self_referencing_constrained_member(doc):
+    """a member of definition D whose own type mentions D again (array / map / union of D) and that carries item counts:
+    the field rendering drops the constraints of a self-referencing field"""
+    for name, d in (doc.get("definitions") or {}).items():
+        flat_d = resolve(doc, d) if isinstance(d, dict) and "allOf" in d else d
+        for p, ps in ((flat_d or {}).get("properties") or {}).items():
+            if isinstance(ps, dict) and ("minItems" in ps or "maxItems" in ps) and refers_to(ps, name):
+                return True
+    return False
+
+
+def overridden_required_member(doc):
+    """a child (allOf with a $ref parent) that declares a member of the parent again without requiring it, while the parent requires it"""
+    def walk(s):
+        if isinstance(s, dict):
+            if "allOf" in s:
+                own = dict(s.get("properties") or {})
+                own_req = set(s.get("required", []))
+                parent_req = set()
+                for part in s["allOf"]:
+                    if isinstance(part, dict) and "$ref" in part:
+                        parent_req |= set(resolve(doc, part).get("required", []))
+                    elif isinstance(part, dict):
+                        own.update(part.get("properties") or {})
+                        own_req |= set(part.get("required", []))
+                if any(p in parent_req and p not in own_req for p in own):
+                    return True
+            return any(walk(v) for v in s.values())
+        if isinstance(s, list):
+            return any(walk(v) for v in s)
+        return False
+    return walk(doc)
+
+
 class NoInstance(Exception):
     """required members form a reference cycle: the schema has no finite instance"""
 
